@@ -14,6 +14,22 @@ func main() {
 		listFuncs(os.Args[2])
 		return
 	}
+	if len(os.Args) > 2 && os.Args[1] == "-cfuncs" {
+		ents, _ := os.ReadDir(os.Args[2] + "/bpf")
+		for _, e := range ents {
+			if len(e.Name()) > 2 && e.Name()[len(e.Name())-2:] == ".c" {
+				tu, err := cfront.Parse(os.Args[2], "bpf/"+e.Name())
+				if err != nil {
+					fmt.Fprintln(os.Stderr, err)
+					os.Exit(2)
+				}
+				for _, l := range tu.FuncLines() {
+					fmt.Println(l)
+				}
+			}
+		}
+		return
+	}
 	tu, err := cfront.Parse(os.Args[1], os.Args[2])
 	if err != nil {
 		fmt.Println(err)
